@@ -3,10 +3,6 @@ package stree
 // C02: height stays within the scapegoat bound: depth <= log_{2000/(1000+β)}(P) + 1,
 // P = peak Len since the tree was created, cleared or last empty.
 
-func vDepth(nd *node[vKT]) int { // deepest key's distance from the root; -1 for the empty tree
-	return vHeight(nd) - 1
-}
-
 func vFloorLog2(n int) int {
 	r := -1
 	for n > 0 {
@@ -14,117 +10,6 @@ func vFloorLog2(n int) int {
 		r++
 	}
 	return r
-}
-
-// VH_stree_HeightStep: inductive step of the height invariant for concrete β.
-func VH_stree_HeightStep() {
-	n := vCase("n")
-	beta := vBeta()
-	root := vShape(n)
-	var ref []vKT
-	vFill(root, &ref)
-	// ghost peak P >= n; the tree's own high-water mark max is somewhere in [n, P]
-	P := n + vChoice("peak-extra", 3)*((n+2)/2)
-	if n == 0 {
-		P = 0
-	}
-	vAssume(vDepthBoundOK(beta, P, vDepth(root)))
-	// The tree's own high-water mark is independent of P: it survives the tree
-	// being drained to empty (which resets P) whenever the removal rule never
-	// fires, so it can be far above both n and P.
-	max := n
-	switch vChoice("max", 3) {
-	case 1:
-		max = P
-	case 2:
-		max = 1000
-	}
-	if n < (max*beta+maxBalance)/fracLimit {
-		vAssume(false)
-	}
-	calls := 0
-	t := vMkTree(root, beta, n, max)
-	t.compare = func(a, b vKT) int { calls++; return vCmpKT(a, b) }
-	ref = vApplyOp(t, ref, vCase("op"), 100, "height step")
-	if len(ref) > P {
-		P = len(ref)
-	}
-	if len(ref) == 0 {
-		P = 0
-	}
-	vCover("height-step")
-	vAssert(vDepthBoundOK(beta, P, vDepth(t.root)), "depth bound holds after the operation")
-	// a lookup of any present key needs at most bound+1 comparisons
-	for _, y := range ref {
-		calls = 0
-		_, ok := t.Get(y)
-		vAssert(ok, "present key found")
-		vAssert(calls <= vDepth(t.root)+1, "lookup comparisons bounded by depth+1")
-		vAssert(vDepthBoundOK(beta, P, calls-1), "lookup needs at most bound+1 comparisons")
-	}
-	vInvariant(t.size >= (t.max*t.β+maxBalance)/fracLimit, "size not below the rebuild threshold")
-	vInvariant(t.max >= t.size, "size <= max")
-}
-
-// VH_stree_HeightStepAbs: the inductive height step with an ABSTRACT depth
-// limit. The tree's limit function is replaced by a table L[0..n+2] of solver
-// variables constrained only by the two facts about the real limitFunc(β) that
-// VH_stree_LimitTable establishes for every β (monotone in n; at least
-// floor(log2 n), which is the height a rebuild produces). The step must then
-// re-establish depth <= L[P]+1, whatever the table is: this is the induction
-// of DESIGN §5 C02 for all balance factors at once. (The removal rule still
-// uses a concrete β, which in this harness is independent of L: more
-// behaviours than the real code has, never fewer.)
-func VH_stree_HeightStepAbs() {
-	n := vCase("n")
-	beta := vBeta()
-	root := vShape(n)
-	var ref []vKT
-	vFill(root, &ref)
-	N := n + 2
-	L := make([]int, N+1)
-	for k := 1; k <= N; k++ {
-		L[k] = vRange("L", vFloorLog2(k), k+1)
-		vAssume(L[k] >= L[k-1])
-	}
-	P := n + vChoice("peak-extra", 3)
-	if n == 0 {
-		P = 0
-	}
-	if P > N {
-		vAssume(false)
-	}
-	if n > 0 {
-		vAssume(vDepth(root) <= L[P]+1)
-	}
-	max := n
-	switch vChoice("max", 3) {
-	case 1:
-		max = P
-	case 2:
-		max = 1000
-	}
-	if n < (max*beta+maxBalance)/fracLimit {
-		vAssume(false)
-	}
-	t := vMkTree(root, beta, n, max)
-	t.limit = func(k int) int {
-		vInvariant(k >= 0 && k <= N, "limit is asked only for sizes up to size+1")
-		return L[k]
-	}
-	ref = vApplyOp(t, ref, vCase("op"), 100, "abstract height step")
-	if len(ref) > P {
-		P = len(ref)
-	}
-	if len(ref) == 0 {
-		P = 0
-	}
-	vCover("abs-height-step")
-	if P == 0 {
-		vAssert(t.root == nil, "an emptied tree has no nodes")
-		return
-	}
-	vAssert(vDepth(t.root) <= L[P]+1, "depth <= limit(P)+1 is re-established for every admissible limit table")
 }
 
 // vAPIDepth measures depth through the exported cursor API only.
@@ -171,6 +56,79 @@ func VH_stree_HeightHistory() {
 	vCover("height-history")
 }
 
+// VH_stree_HeightRuns: exported API only. Long monotone and zig-zag insertion
+// runs (the adversarial orders for an unbalanced tree) of symbolic keys whose
+// relative order is fixed by assumption, so the run is a single path; then a
+// removal run from one end. Depth is measured through the cursor API after
+// every operation.
+func VH_stree_HeightRuns() {
+	n, pat := vCase("n"), vCase("pattern")
+	beta := vBeta()
+	t := New[vKT](beta, vCmpKT)
+	keys := make([]vKT, n)
+	for i := range keys {
+		keys[i] = vKT{vOrd("k"), i}
+		if i > 0 {
+			vAssume(keys[i-1].K < keys[i].K)
+		}
+	}
+	// insertion order by pattern: 0 ascending, 1 descending, 2 outside-in zig-zag, 3 inside-out
+	order := make([]int, 0, n)
+	switch pat {
+	case 0:
+		for i := 0; i < n; i++ {
+			order = append(order, i)
+		}
+	case 1:
+		for i := n - 1; i >= 0; i-- {
+			order = append(order, i)
+		}
+	case 2:
+		for lo, hi := 0, n-1; lo <= hi; lo, hi = lo+1, hi-1 {
+			order = append(order, lo)
+			if hi != lo {
+				order = append(order, hi)
+			}
+		}
+	default:
+		for lo, hi := (n-1)/2, (n-1)/2+1; lo >= 0 || hi < n; lo, hi = lo-1, hi+1 {
+			if lo >= 0 {
+				order = append(order, lo)
+			}
+			if hi < n {
+				order = append(order, hi)
+			}
+		}
+	}
+	P := 0
+	for _, i := range order {
+		vAssert(t.Add(keys[i]), "Add of a new key")
+		P++
+		vAssert(t.Len() == P, "Len counts the keys added")
+		vAssert(vDepthBoundOK(beta, P, vAPIDepth(t.Root())), "depth bound holds after every insertion of the run")
+	}
+	vCover("height-runs")
+	// drain from the small end: P stays at its peak until the tree is empty
+	for i := 0; i < n; i++ {
+		vAssert(t.Remove(keys[i]), "Remove of a present key")
+		if i == n-1 {
+			vAssert(!t.Root().Valid(), "the drained tree is empty")
+		} else {
+			vAssert(vDepthBoundOK(beta, P, vAPIDepth(t.Root())), "depth bound holds after every removal of the run")
+		}
+	}
+	// and grow again from empty: the peak restarts
+	P = 0
+	for _, i := range order {
+		if P >= 8 {
+			break
+		}
+		vAssert(t.Add(keys[i]), "Add after draining")
+		P++
+		vAssert(vDepthBoundOK(beta, P, vAPIDepth(t.Root())), "depth bound holds with the peak counted from the last empty state")
+	}
+}
+
 // VH_stree_BulkHeight: New from n distinct keys has the minimum height floor(log2 n).
 func VH_stree_BulkHeight() {
 	n := vCase("n")
@@ -185,53 +143,4 @@ func VH_stree_BulkHeight() {
 	vCover("bulk-height")
 	vAssert(t.Len() == n, "New: all distinct keys stored")
 	vAssert(vAPIDepth(t.Root()) == vFloorLog2(n), "New from n distinct keys has height floor(log2 n)")
-}
-
-// VH_stree_LimitTable: the depth limit used by insertion is never above the
-// property's logarithm and never below floor(log2 n) (which the rebuild
-// argument needs), for every balance factor in the job's range. This is the
-// lemma the inductive height step rests on; the real limitFunc is executed.
-func VH_stree_LimitTable() {
-	lo, hi := vCase("lo"), vCase("hi")
-	ns := []int{1, 2, 3, 4, 5, 6, 7, 8, 9, 10, 12, 15, 16, 17, 20, 31, 32, 33, 50, 63, 64, 65, 100, 127, 128, 129, 255, 256, 257, 500, 1000, 1023, 1024, 1025, 4095, 4096, 4097, 10000, 65536, 1000000}
-	for beta := lo; beta <= hi; beta++ {
-		f := limitFunc(beta)
-		prev := 0
-		for _, n := range ns {
-			l := f(n)
-			vAssert(l >= vFloorLog2(n), "limit(n) is at least floor(log2 n)")
-			vAssert(l >= prev, "limit is monotone in n")
-			prev = l
-			if beta < 1000 {
-				// l <= log_{2000/(1000+beta)} n  <=>  2000^l <= n*(1000+beta)^l
-				vAssert(vDepthBoundOK(beta, n, l+1), "limit(n) does not exceed the logarithm of the property")
-			}
-		}
-	}
-	vCover("limit-table")
-}
-
-func VT_stree_limits() {
-	for _, beta := range []int{0, 1, 250, 500, 750, 998, 999, 1000} {
-		f := limitFunc(beta)
-		var ls []int
-		for _, n := range []int{1, 2, 3, 4, 5, 7, 8, 9, 15, 16, 17, 100, 1000, 4096} {
-			ls = append(ls, f(n))
-		}
-		vOut("limit", beta, ls)
-	}
-	// a sorted insertion run and its depth profile
-	for _, beta := range []int{0, 500, 999} {
-		t := New[vKT](beta, vCmpKT)
-		var ds []int
-		for i := 0; i < 40; i++ {
-			t.Add(vKT{i, i})
-			ds = append(ds, vDepth(t.root))
-		}
-		for i := 0; i < 30; i++ {
-			t.Remove(vKT{i, i})
-			ds = append(ds, vDepth(t.root))
-		}
-		vOut("depths", beta, ds)
-	}
 }
